@@ -189,6 +189,11 @@ class Extract(ast.NodeVisitor):
                 b = base_name(k.value)
                 if b:
                     f.add("Store", b)
+                else:
+                    # out=<expression>: whatever the expression yields is written into
+                    t_out = self.fresh_tmp()
+                    self.expr(k.value, t_out)
+                    f.add("Store", t_out)
         short = nm.split(".")[-1]
         if short == "submit" and c.args:
             # executor.submit(partial(g, **kw), *args)  ==  a call g(*args, **kw) whose result is read with .result()
@@ -494,6 +499,10 @@ def collect():
             else:
                 f.add("Param", p, i)
         Extract(f, known).visit(f.node)
+        decos = {ast.unparse(d).split("(")[0].split(".")[-1] for d in getattr(f.node, "decorator_list", [])}
+        if decos & {"lru_cache", "cache", "memoize", "cached_property"}:
+            # a memoised function hands the SAME object to every caller: its result is module-level state, not a fresh object
+            f.add("Alias", "%ret", [GLOBALS])
         local = set(f.params) | {nn.id.split("#")[0] for nn in ast.walk(f.node) if isinstance(nn, ast.Name) and isinstance(nn.ctx, ast.Store)}
         used = {nn.id for nn in ast.walk(f.node) if isinstance(nn, ast.Name) and isinstance(nn.ctx, ast.Load) and "#" not in nn.id}
         for g in sorted((used & module_names) - local):
